@@ -100,7 +100,9 @@ def trim_choices(wb, rnd, limit):
     outs = [list(c) for k in (1, 2) for c in itertools.combinations(cand_o, k)]
     allc = [(i, o) for i in ins for o in outs]
     rnd.shuffle(allc)
-    return allc[:limit], len(allc)
+    # choices that every run must contain (unbounded ranges below an output)
+    must = [c for c in allc if wb.get('aliases') and len(c[0]) == 1 and len(c[1]) == 1][:3]
+    return must + [c for c in allc if c not in must][:max(0, limit - len(must))], len(allc)
 
 
 def job(arg):
